@@ -261,6 +261,9 @@ class Interp:
             return (a.rec is b.rec) == (op == '==')
         elif isinstance(a, Ptr) and isinstance(b, Ptr) and a.rec is b.rec:
             return op in ('<=', '>=')            # the same pointer (two null ends of an empty vector in an assert): ordered as equal
+        elif op in ('==', '!=') and ((isinstance(a, PtrLV) and (isinstance(b, Ptr) and b.rec is None or isinstance(b, int) and b == 0)) or
+                                     (isinstance(b, PtrLV) and (isinstance(a, Ptr) and a.rec is None or isinstance(a, int) and a == 0))):
+            return op == '!='            # the address of a local is not null
         elif isinstance(a, Ptr) and isinstance(b, int) and b == 0 and op in ('==', '!='):
             return (a.rec is None) == (op == '==')
         elif isinstance(b, Ptr) and isinstance(a, int) and a == 0 and op in ('==', '!='):
